@@ -54,16 +54,17 @@ type line struct {
 }
 
 type runner struct {
-	k         kase
-	verbose   bool
-	vios      [][2]string
-	cur       *hist.Mat
-	ln        *line
-	refreshed bool   // a refresh happened earlier in the history
-	prev      string // kind of the previous operation
-	stats     map[string]int64
-	obs       map[string]int64
-	obsDetail map[string]string
+	k                 kase
+	verbose           bool
+	vios              [][2]string
+	cur               *hist.Mat
+	ln                *line
+	refusedDegenerate bool
+	refreshed         bool   // a refresh happened earlier in the history
+	prev              string // kind of the previous operation
+	stats             map[string]int64
+	obs               map[string]int64
+	obsDetail         map[string]string
 }
 
 func (r *runner) say(format string, a ...interface{}) {
@@ -190,6 +191,9 @@ func (r *runner) execute() string {
 		default:
 			panic("unknown operation " + op)
 		}
+		if r.refusedDegenerate {
+			return "pruned:refresh-refused-at-threshold-0"
+		}
 		if !ok {
 			if last {
 				break
@@ -222,6 +226,14 @@ func (r *runner) opRefresh(step int, last bool) bool {
 		if last {
 			r.panicked("refresh", o.Panic)
 		}
+		return false
+	}
+	if sc.T == 0 && len(o.StartErr) == len(ids) {
+		// Degenerate sharing: at t=0 every share IS the key, so no key-preserving refresh can change a share or
+		// retire one; the clauses below are unsatisfiable by any refresh that completes, and refusing to start
+		// one is the only conforming behaviour.
+		r.refusedDegenerate = true
+		r.say("  refresh refused at threshold 0: %s", hist.Describe(o))
 		return false
 	}
 	if !o.AllDone(ids) {
